@@ -255,6 +255,7 @@ const preamble = `(set-option :produce-models true)
 (declare-fun elemBase (Ref) Ref)
 (declare-fun elemIdx (Ref) Int)
 (declare-fun kindOf (Ref) Int)
+(declare-fun at (Ref Int Int) Ref)
 (declare-fun strlen (Str) Int)
 (declare-fun strcat (Str Str) Str)
 (declare-fun itag (Iface) Int)
@@ -264,6 +265,7 @@ const preamble = `(set-option :produce-models true)
 (assert (= (kindOf null) 0))
 (assert (forall ((r Ref) (k Int)) (! (and (= (parent (sub r k)) r) (= (fieldOf (sub r k)) k) (= (kindOf (sub r k)) 1) (= (birth (sub r k)) (birth r))) :pattern ((sub r k)))))
 (assert (forall ((r Ref) (k Int)) (! (and (= (elemBase (elem r k)) r) (= (elemIdx (elem r k)) k) (= (kindOf (elem r k)) 2) (= (birth (elem r k)) (birth r))) :pattern ((elem r k)))))
+(assert (forall ((b Ref) (o Int) (i Int)) (! (= (at b o i) (elem b (+ o i))) :pattern ((at b o i)))))
 (assert (forall ((s Str)) (! (and (>= (strlen s) 0) (= (= (strlen s) 0) (= s str_empty))) :pattern ((strlen s)))))
 (assert (= (itag nil_iface) 0))
 (assert (= (iref nil_iface) null))
